@@ -158,6 +158,14 @@ func init() {
 		return boolValue(deepEqualTerm(args[0], args[1], map[[2]*value]bool{}))
 	}
 
+	externals["github.com/google/go-cmp/cmp.Equal"] = func(fr *frame, args []value) value {
+		// the only option used by the code under test is cmpopts.EquateEmpty
+		opts := args[2].([]value)
+		return boolValue(deepEqualTermOpt(args[0], args[1], map[[2]*value]bool{}, len(opts) > 0))
+	}
+	externals["github.com/google/go-cmp/cmp/cmpopts.EquateEmpty"] = func(fr *frame, args []value) value {
+		return iface{types.Typ[types.Bool], true} // an opaque, non-nil cmp.Option
+	}
 	externals["time.Now"] = extTimeNow
 	externals["time.Sleep"] = nop
 	externals["time.Since"] = func(fr *frame, args []value) value { return int64(0) }
@@ -571,6 +579,10 @@ func extSortSort(fr *frame, args []value) value {
 // reflect.DeepEqual
 
 func deepEqualTerm(x, y value, seen map[[2]*value]bool) *Term {
+	return deepEqualTermOpt(x, y, seen, false)
+}
+
+func deepEqualTermOpt(x, y value, seen map[[2]*value]bool, equateEmpty bool) *Term {
 	switch xv := x.(type) {
 	case iface:
 		yv, ok := y.(iface)
@@ -583,7 +595,7 @@ func deepEqualTerm(x, y value, seen map[[2]*value]bool) *Term {
 		if xv.t == nil {
 			return tTrue
 		}
-		return deepEqualTerm(xv.v, yv.v, seen)
+		return deepEqualTermOpt(xv.v, yv.v, seen, equateEmpty)
 	case structure:
 		yv, ok := y.(structure)
 		if !ok || len(xv) != len(yv) {
@@ -591,7 +603,7 @@ func deepEqualTerm(x, y value, seen map[[2]*value]bool) *Term {
 		}
 		var cs []*Term
 		for k := range xv {
-			c := deepEqualTerm(xv[k], yv[k], seen)
+			c := deepEqualTermOpt(xv[k], yv[k], seen, equateEmpty)
 			if c.isFalse() {
 				return tFalse
 			}
@@ -605,7 +617,7 @@ func deepEqualTerm(x, y value, seen map[[2]*value]bool) *Term {
 		}
 		var cs []*Term
 		for k := range xv {
-			c := deepEqualTerm(xv[k], yv[k], seen)
+			c := deepEqualTermOpt(xv[k], yv[k], seen, equateEmpty)
 			if c.isFalse() {
 				return tFalse
 			}
@@ -614,12 +626,12 @@ func deepEqualTerm(x, y value, seen map[[2]*value]bool) *Term {
 		return mkAnd(cs...)
 	case []value:
 		yv, ok := y.([]value)
-		if !ok || len(xv) != len(yv) || (xv == nil) != (yv == nil) {
+		if !ok || len(xv) != len(yv) || (!equateEmpty && (xv == nil) != (yv == nil)) {
 			return tFalse
 		}
 		var cs []*Term
 		for k := range xv {
-			c := deepEqualTerm(xv[k], yv[k], seen)
+			c := deepEqualTermOpt(xv[k], yv[k], seen, equateEmpty)
 			if c.isFalse() {
 				return tFalse
 			}
@@ -642,17 +654,32 @@ func deepEqualTerm(x, y value, seen map[[2]*value]bool) *Term {
 			return tTrue
 		}
 		seen[k] = true
-		return deepEqualTerm(*xv, *yv, seen)
+		return deepEqualTermOpt(*xv, *yv, seen, equateEmpty)
 	case *omap:
 		yv, ok := y.(*omap)
-		if !ok || (xv == nil) != (yv == nil) || xv.len() != yv.len() {
+		if !ok || xv.len() != yv.len() || (!equateEmpty && (xv == nil) != (yv == nil)) {
 			return tFalse
 		}
-		if xv == nil {
+		if xv == nil || yv == nil {
 			return tTrue
 		}
 		if xv.nsym > 0 || yv.nsym > 0 {
-			unsupported("reflect.DeepEqual on maps with symbolic keys")
+			// keys are pairwise distinct within each map and the lengths are
+			// equal: the maps are equal iff every x entry has a y entry with
+			// an equal key and an equal value
+			var all []*Term
+			xv.each(func(k, v value) {
+				var any []*Term
+				yv.each(func(k2, v2 value) {
+					ke := eqTerm(xv.keyType, k, k2)
+					if ke.isFalse() {
+						return
+					}
+					any = append(any, mkAnd(ke, deepEqualTermOpt(v, v2, seen, equateEmpty)))
+				})
+				all = append(all, mkOr(any...))
+			})
+			return mkAnd(all...)
 		}
 		var cs []*Term
 		bad := false
@@ -663,7 +690,7 @@ func deepEqualTerm(x, y value, seen map[[2]*value]bool) *Term {
 				bad = true
 				return
 			}
-			cs = append(cs, deepEqualTerm(v, yv.vals[j], seen))
+			cs = append(cs, deepEqualTermOpt(v, yv.vals[j], seen, equateEmpty))
 		})
 		if bad {
 			return tFalse
